@@ -82,7 +82,6 @@ def got_paragraphs(reply):
 def run(ctx):
     ctx.build_go()
     T = ctx.tables()
-    ctx.regen({'AaTables.lean': tolean.aa_tables(T)})
     ctx.driver_path = ctx.driver()
     broken = ctx.audit(THEOREMS, {'AaVerif.Props.Full.C09Full': ['C09Full.C09_capability_roundtrip_full', 'C09Full.C09_network_roundtrip_full', 'C09Full.C09_signal_roundtrip_full']})
     rng = ctx.rng
